@@ -26,6 +26,8 @@ M = [
     ("c08-no-terminal-transfer", "stochastic.py", "                prefix.bond_descriptors[0].transitions = self.left_terminal.transitions\n", "", ["C08"]),
     ("c08-no-terminal-weight", "stochastic.py", "                prefix.bond_descriptors[0].weight = self.left_terminal.weight\n", "", ["C08"]),
     ("c08-cap-any-endgroup", "stochastic.py", "connecting_bond_idx = choose_compatible_weight(self.end_bonds, starting_bond, rng)", "connecting_bond_idx = choose_compatible_weight(self.end_bonds, None, rng)", ["C08", "C06", "C04"]),
+    ("c08-equal-first-last", "core.py", "np.all(weights == weights[0])", "weights[0] == weights[-1]", ["C08"]),
+    ("c08-tie-needs-three", "core.py", "if len(compatible_idx) > 0 and np.all(weights == weights[0]):", "if len(compatible_idx) > 0 and np.all(weights == weights[0]) and (len(weights) < 4 or weights[0] == 0):", ["C08"]),
     ("c08-equiv-equal-test", "core.py", "np.all(weights == weights[0])", "np.all(weights[0] == weights)", []),
     ("c04-atom-shift", "mol_gen.py", "            bd.atom_bonding_to += current_atom_number\n", "            bd.atom_bonding_to += current_atom_number - 1 if len(other_bond_descriptors) > 2 else current_atom_number\n", ["C04", "C05"]),
     ("c04-no-compat-check", "mol_gen.py", "        if not other_bond_descriptors[other_bond_idx].is_compatible(\n            self.bond_descriptors[self_bond_idx]\n        ):", "        if False:", []),
